@@ -4,6 +4,8 @@ import SmVerif.Model.Lookup
 import SmVerif.Model.V3Spec
 import SmVerif.Model.Paths
 import SmVerif.Model.DrvRam
+import SmVerif.Model.DrvBld
+import SmVerif.Model.DrvRewrite
 import SmVerif.Model.DrvName
 import SmVerif.Model.DrvAdjust
 import SmVerif.Model.DrvSv
@@ -178,6 +180,8 @@ def handle (toks : List String) : String :=
     else if op.startsWith "sv." then DrvSv.handleSv toks
     else if op.startsWith "adj." then DrvAdjust.handleAdj toks
     else if op.startsWith "name." then DrvName.handleName toks
+    else if op.startsWith "rw." then DrvRewrite.handleRewrite toks
+    else if op.startsWith "bld." || op.startsWith "smap." then DrvBld.handleBld toks
     else if op.startsWith "bytes." then "*\tsafe\t1"
     else handleMisc toks
 
